@@ -372,3 +372,104 @@ Example real_taskrunner_wait_after_release :
   let s := rexec 1 [[RSched true; RWait; RSchedNow false]] [0;0; 1;1; 0;0; 0] in
   (map rres (rthreads s), map rpcof (rthreads s), rc s, rwg s) = ([[1]%Z], [RWaitingWg], 0, 1).
 Proof. vm_compute. reflexivity. Qed.
+
+(* (k) MaxConnsHandler that keeps the permit of a request whose handler took the connection over
+   (http.Hijacker) until that connection is closed, and whose wrapped connection gives the permit
+   back on EVERY Close() - no sync.Once (seeded change C05-3).  [hij t]: the requests of thread t
+   hijack.  In the vocabulary of the model, Close() of the connection hijacked by thread k is the
+   environment event [LCancel k] (on the real code neither a cancelled context nor a closed
+   connection touches the limit). *)
+Definition close_releases_lstep (hij : nat -> bool) (s : lstate) (x : nat) : option lstate :=
+  match nth_error (lthreads s) x with
+  | Some th =>
+    match lpcof th, lcur th with
+    | LInBody, Some o =>
+      if hij x then    (* hijacked: the deferred release is skipped, the connection owns the permit *)
+        Some (lkeep s x (ldone th (lheld th) (match o with LReq true => 3%Z | _ => 1%Z end)))
+      else lstep s x
+    | LIdle, Some (LCancel k) =>
+      if hij k && Nat.ltb 0 (lc s) then   (* Close(): latch.Return() succeeds whenever a permit is out - anybody's *)
+        Some (mkLS (lcap s) (pred (lc s)) (lsig s) (lacq s) (S (lrel s)) (lrogue s)
+                   (upd_nth (lthreads s) x (ldone th (lheld th) 1)))
+      else lstep s x
+    | _, _ => lstep s x
+    end
+  | None => lstep s x
+  end.
+
+(* n = 1: thread 0's handler hijacks and returns, the connection is closed (permit back), thread 1
+   enters, the connection is closed AGAIN (thread 1's permit is popped), thread 2 is let in: two
+   handlers inside *)
+Theorem close_releases_cap_exceeded_refuted :
+  exists n scripts sched,
+    0 < n /\ n < linbody (run (close_releases_lstep (Nat.eqb 0)) (linit n scripts) sched).
+Proof.
+  exists 1, [[LReq false; LCancel 0; LCancel 0]; [LReq false]; [LReq false]], [0; 0; 0; 1; 0; 2].
+  vm_compute. split; repeat constructor.
+Qed.
+
+Example real_maxconns_ignores_conn_close :
+  let s := lexec 1 [[LReq false; LCancel 0; LCancel 0]; [LReq false]; [LReq false]] [0; 0; 0; 1; 0; 2] in
+  (linbody s, lc s, map lres (lthreads s)) = (1, 1, [[1; 1; 1]; []; [0]]%Z).
+Proof. vm_compute. reflexivity. Qed.
+
+(* (l) Pool.Put that first evicts the stale idle resources - from the first stale node of the idle
+   stack downwards: destroy, created-- - but cuts the list only BELOW a fresh node: when the top
+   of the stack is itself stale the destroyed nodes stay linked (seeded change C05-4).  A later Get
+   pops such a zombie as "expired" and un-counts it a second time. *)
+Fixpoint stale_from (maxage now : Z) (idle : list (nat * Z)) : nat :=
+  match idle with
+  | [] => 0
+  | (x, last) :: rest => if expired maxage now last then 0 else S (stale_from maxage now rest)
+  end.
+
+Definition evict_stale_pstep (s : pstate) (t : nat) : option pstate :=
+  match nth_error (pthreads s) t with
+  | Some th =>
+    match ppcof th, pcur th, pheld th with
+    | PEnter, Some PPut, x :: rest =>
+      if plocked s then None else
+      let i := stale_from (pmaxage s) (pclock s) (pidle s) in
+      let stale := skipn i (pidle s) in
+      let idle' := match i with 0 => pidle s | _ => firstn i (pidle s) end in   (* prev == nil: not cut *)
+      let sig' := if Nat.ltb (psig s) (pwaiting s) then S (psig s) else psig s in
+      Some (mkPS (plimit s) (pmaxage s) (pcreated s - length stale) ((x, pclock s) :: idle') (pclock s) (pnext s)
+                 sig' (pdestroyed s ++ map fst stale)
+                 (upd_nth (pthreads s) t (mkPT PIdle (pscript th) (S (popi th)) rest (pres th ++ [(-1)%Z]))) false)
+    | _, _, _ => pstep s t
+    end
+  | None => pstep s t
+  end.
+
+(* limit 2, max-age 100: two resources taken, one returned, 500 later the other one is returned
+   while the idle one is stale; three Gets follow and all three are served: 3 resources held *)
+Theorem evict_stale_limit_exceeded_refuted :
+  exists n maxage scripts sched,
+    let s := run evict_stale_pstep (pinit n maxage scripts) sched in
+    0 < n /\ n < pheldcount s.
+Proof.
+  exists 2, 100%Z, [[PGet; PGet; PPut; PAdv 500; PPut; PGet; PGet; PGet]], (repeat 0 24).
+  vm_compute. split; repeat constructor.
+Qed.
+
+Example real_pool_put_evicts_nothing :
+  let s := pexec 2 100 [[PGet; PGet; PPut; PAdv 500; PPut; PGet; PGet; PGet]] (repeat 0 24) in
+  (pheldcount s, pcreated s, map ppcof (pthreads s), pdestroyed s) = (2, 2, [PWaiting], [1]).
+Proof. vm_compute. reflexivity. Qed.
+
+(* (m) a caller that instantiates the latch more than once for ONE route: rest/engine.go assembling
+   the middleware chain of a route on its first request, without holding the lock, each racing
+   first request keeping the chain - and so the latch - it built itself (seeded change C05-9).  The
+   route's guarded region is then the union of the regions of k independent latches of capacity n. *)
+Definition route_inbody (latches : list lstate) : nat := sumf linbody latches.
+
+Theorem latch_per_first_request_cap_exceeded_refuted :
+  exists n k, 0 < n /\ n < route_inbody (map (fun _ => lexec n [[LReq false]] [0]) (seq 0 k)).
+Proof. exists 1, 3. vm_compute. split; repeat constructor. Qed.
+
+(* the engine binds ONE chain per route before the first request: the same three first requests
+   meet one latch, one is inside, two are refused *)
+Example real_engine_one_latch_per_route :
+  let s := lexec 1 [[LReq false]; [LReq false]; [LReq false]] [0; 1; 2] in
+  (route_inbody [s], map lres (lthreads s)) = (1, [[]; [0]; [0]]%Z).
+Proof. vm_compute. reflexivity. Qed.
